@@ -930,3 +930,123 @@ func gasLimitTestsAgreeRule(p *engine.Prog, r *engine.Report, rule string) {
 	tb, tv := tests(b), tests(v)
 	r.Check(len(tb) > 0 && strings.Join(tb, " ; ") == strings.Join(tv, " ; "), rule, "filterTxs vs processTxs|same tests against the block gas limit", p.Pos(b.Pos()), itoa(int64(len(tb)))+" tests agree", "builder: {"+strings.Join(tb, " ; ")+"} validator: {"+strings.Join(tv, " ; ")+"}: the two sides draw the block gas limit differently — an honestly filled block is refused, or a block no honest builder would produce is accepted")
 }
+
+// dryRunNeutralRule: tryExecuteTx (the builder's dry run of contract calls before upgrade 12) leaves
+// the check state as it found it: every balance mutation it makes around vm.Run has its inverse
+// (same address, same amount) under exactly the same conditions — the real application follows on
+// the same state and the validator runs no dry run.
+func dryRunNeutralRule(p *engine.Prog, r *engine.Report, rule string) {
+	f := mustFunc(p, r, "blockchain", "Blockchain.tryExecuteTx")
+	if f == nil {
+		return
+	}
+	r.Fn(engine.FuncName(f))
+	type mut struct {
+		name, args, conds, pos string
+	}
+	var muts []mut
+	for _, c := range engine.Calls(f) {
+		cal := c.Common().StaticCallee()
+		if cal == nil || cal.Signature.Recv() == nil {
+			continue
+		}
+		if n := engine.NamedOf(cal.Signature.Recv().Type()); n == nil || n.Obj().Name() != "StateDB" {
+			continue
+		}
+		if !strings.HasPrefix(cal.Name(), "Add") && !strings.HasPrefix(cal.Name(), "Sub") && !strings.HasPrefix(cal.Name(), "Set") {
+			continue
+		}
+		args := engine.CallArgs(c)
+		var as []string
+		for _, a := range args[1:] {
+			as = append(as, renderVal(a, 0))
+		}
+		muts = append(muts, mut{cal.Name(), strings.Join(as, ","), strings.Join(controlSig(c.Block()), " && "), p.InstrPos(c)})
+	}
+	inverse := func(n string) string {
+		switch {
+		case strings.HasPrefix(n, "Add"):
+			return "Sub" + strings.TrimPrefix(n, "Add")
+		case strings.HasPrefix(n, "Sub"):
+			return "Add" + strings.TrimPrefix(n, "Sub")
+		}
+		return ""
+	}
+	for _, m := range muts {
+		ok := false
+		for _, o := range muts {
+			if o.name == inverse(m.name) && o.args == m.args && o.conds == m.conds {
+				ok = true
+			}
+		}
+		r.Check(ok, rule, uniq(r, "tryExecuteTx|"+m.name+" has its inverse under the same conditions"), m.pos, "mirrored", "the dry run's "+m.name+"("+m.args+") under {"+m.conds+"} has no "+inverse(m.name)+" of the same address and amount under the same conditions: the dry run leaves a trace on the state the block is then built on — the builder's roots differ from what every validator (who runs no dry run) computes")
+	}
+	if len(muts) == 0 {
+		r.OK(rule, "tryExecuteTx|no state mutation in the dry run", p.Pos(f.Pos()), "nothing to mirror")
+	}
+}
+
+// unconditionalSetterRule: StateDB.<setter>(addr, v) reaches the object-level setter with v on every
+// path (only the nil test of the looked-up object may stand in the way), and the object-level setter
+// stores v unconditionally. A "guarded" setter (never backwards, only if changed …) silently drops
+// writes the transition logic relies on — e.g. the nonce restart of a new epoch.
+func unconditionalSetterRule(p *engine.Prog, r *engine.Report, rule, setter, objType, objSetter, field string) {
+	f := mustFunc(p, r, "core/state", "StateDB."+setter)
+	if f == nil {
+		return
+	}
+	r.Fn(engine.FuncName(f))
+	val := ssa.Value(f.Params[len(f.Params)-1])
+	ok, why := false, "object-level setter not called"
+	for _, c := range engine.Calls(f) {
+		cal := c.Common().StaticCallee()
+		if cal == nil || cal.Signature.Recv() == nil {
+			continue
+		}
+		if n := engine.NamedOf(cal.Signature.Recv().Type()); n == nil || n.Obj().Name() != objType {
+			continue
+		}
+		if !strings.EqualFold(cal.Name(), objSetter) {
+			continue
+		}
+		args := engine.CallArgs(c)
+		if engine.Origin(args[len(args)-1]) != val {
+			why = "object-level setter called with another value"
+			continue
+		}
+		ok, why = true, ""
+		for _, s := range controlSig(c.Block()) {
+			if !strings.HasSuffix(s, " != nil)") && !strings.HasSuffix(s, " == nil)") {
+				ok, why = false, "guarded by "+s
+			}
+		}
+	}
+	r.Check(ok, rule, "StateDB."+setter+"|the given value reaches the object on every path", p.Pos(f.Pos()), "unconditional (nil test of the object only)", "StateDB."+setter+": "+why+": a write the state transition asks for can be dropped (e.g. nonce 1 of a new epoch after a higher nonce of the previous one: replay protection counts on from the old epoch's nonce)")
+	// the object-level setter chain stores the parameter unconditionally
+	n := 0
+	for _, g := range funcsOfPkg(p, "core/state") {
+		if g.Blocks == nil || g.Signature.Recv() == nil || !strings.EqualFold(g.Name(), objSetter) {
+			continue
+		}
+		if rn := engine.NamedOf(g.Signature.Recv().Type()); rn == nil || rn.Obj().Name() != objType {
+			continue
+		}
+		for _, b := range g.Blocks {
+			for _, ins := range b.Instrs {
+				st, isSt := ins.(*ssa.Store)
+				if !isSt {
+					continue
+				}
+				if _, fld, okF := engine.FieldOf(st.Addr); !okF || fld != field {
+					continue
+				}
+				n++
+				okS := len(controlSig(b)) == 0 && engine.Origin(st.Val) == ssa.Value(g.Params[len(g.Params)-1])
+				r.Check(okS, rule, uniq(r, objType+"."+g.Name()+"|stores its parameter unconditionally"), p.InstrPos(st), "plain store", objType+"."+g.Name()+" stores "+field+" under a condition or from another value")
+			}
+		}
+	}
+	if n == 0 {
+		r.Und(rule, objType+"."+objSetter+"|store of "+field, "", "store not found")
+	}
+}
